@@ -139,7 +139,7 @@ def main():
     else:
         spec = to_spec(json.loads(a.spec))
     cfg = R.TIERS[a.tier]
-    universes = [R.exh_universe(t, d, cfg["univ_cap"], a.seed, cfg["list_max"])[0] for _, t, d in R.exh_types(cfg)]
+    universes = R.make_universes(cfg, a.seed)
     R.have_infer_many()
     case = R.make_case(spec, cfg, a.seed, universes)
     r = minimise(case, cfg, a.key)
